@@ -248,6 +248,83 @@ func c17Enumerate(tier string, emit explore.Emit) {
 				}})
 		}
 	}
+	// every SQLSTATE class as the code decoration, with and without a severity decoration / plain wrappers: the
+	// code arrives as given and the severity is the decoration or the default ERROR - whatever the class
+	for _, class := range []string{"00", "01", "02", "03", "08", "09", "0A", "0B", "0F", "0L", "0P", "0Z", "20", "21", "22", "23", "24", "25", "26", "27", "28", "2B", "2D", "2F", "34", "38", "39", "3B", "3D", "3F", "40", "42", "44", "53", "54", "55", "57", "58", "72", "F0", "HV", "P0", "XX"} {
+		for _, tail := range []string{"000", "001", "006", "P01", "P03"} {
+			for _, sev := range []string{"", "ERROR", "FATAL", "WARNING"} {
+				for _, wraps := range []int{0, 2} {
+					code, sev, wraps := class+tail, sev, wraps
+					emit(explore.Case{Family: "codes", Size: 3,
+						Desc: func() any {
+							return map[string]any{"code": code, "severity_decoration": sev, "plain_wrappers_outside": wraps}
+						},
+						Run: func() explore.Result {
+							var res explore.Result
+							res.Outcome = "decorated"
+							res.Key = fmt.Sprint("code", code, sev, wraps)
+							err := psqlerr.WithCode(errors.New("boom"), codes.Code(code))
+							want := map[byte]string{'S': "ERROR", 'C': code, 'M': "boom"}
+							if sev != "" {
+								err = psqlerr.WithSeverity(err, psqlerr.Severity(sev))
+								want['S'] = sev
+							}
+							for i := 0; i < wraps; i++ {
+								err = fmt.Errorf("ctx: %w", err)
+								want['M'] = "ctx: " + want['M']
+							}
+							var sink bytes.Buffer
+							wire.ErrorCode(buffer.NewWriter(harness.Quiet, &sink), err)
+							c17Check(&res, sink.Bytes(), want)
+							return res
+						}})
+				}
+			}
+		}
+	}
+	// the library's own decorated errors take the same road: a message larger than the limit is reported with the
+	// fields the library gave that error (non-fatal, class 54000) - after a statement error, before one, alone
+	for _, before := range []bool{false, true} {
+		for _, limit := range []int{1024, 8192} {
+			before, limit := before, limit
+			emit(explore.Case{Family: "session", Size: 3,
+				Desc: func() any {
+					return map[string]any{"error": "the library's own error for a message larger than the limit", "limit": limit, "a_statement_error_before_it": before}
+				},
+				Run: func() explore.Result {
+					var res explore.Result
+					res.Outcome = "decorated"
+					res.Key = fmt.Sprint("own-size-error", before, limit)
+					parse := func(ctx context.Context, q string) (wire.PreparedStatements, error) {
+						return wire.Prepared(wire.NewStatement(func(ctx context.Context, w wire.DataWriter, p []wire.Parameter) error {
+							return psqlerr.WithCode(errors.New("boom"), codes.UniqueViolation)
+						})), nil
+					}
+					one, err := harness.StartOne(parse, wire.MessageBufferSize(limit))
+					if err != nil {
+						res.Engine = err.Error()
+						return res
+					}
+					defer one.Stop()
+					one.Step(pgproto.Startup("user", "u"))
+					if before {
+						one.Step(pgproto.Query("x"))
+					}
+					out, _ := one.Step(pgproto.Query(strings.Repeat("x", 3*limit)))
+					ms, perr := pgproto.ParseBackend(out)
+					if perr != nil || len(ms) == 0 || ms[0].Type != 'E' {
+						res.Fail("error-response-missing", fmt.Sprintf("a Query of %d bytes under a limit of %d: answered %q %v", 3*limit, limit, pgproto.Kinds(ms), perr))
+						return res
+					}
+					if f := ms[0].Fields; f['C'] != "54000" || f['S'] == "FATAL" || f['S'] == "PANIC" || f['M'] == "" {
+						res.Fail("field-mismatch", fmt.Sprintf("a Query of %d bytes under a limit of %d is reported as %s (the library builds that error with code 54000 and a non-fatal severity)", 3*limit, limit, ms[0].String()))
+					}
+					out, _ = one.Step(pgproto.Query("x"))
+					c17Check(&res, out, map[byte]string{'S': "ERROR", 'C': "23505", 'M': "boom"})
+					return res
+				}})
+		}
+	}
 	// once per shape through a live session, as a statement error
 	forShapes(len(ds), sdepth, func(sh []int) {
 		shape := append([]int(nil), sh...)
